@@ -108,7 +108,26 @@ func (s *solo) sendPeerBootstrap() *peerQ {
 	return q
 }
 
+// canRRC: Finish.releaseResultCaps=true gives back every capability of the
+// Return; that is only legal if the peer has not already released one of
+// them with an explicit Release.
+func (s *solo) canRRC(q *peerQ) bool {
+	if q.ret == nil || q.ret.RetKind != "results" || q.ret.Payload == nil {
+		return true
+	}
+	for id, n := range countDescs(q.ret.Payload.Caps) {
+		ce := s.cexp[id]
+		if ce == nil || ce.refs < n || ce.gen != q.retGen[id] {
+			return false
+		}
+	}
+	return true
+}
+
 func (s *solo) sendPeerFinish(q *peerQ, rrc bool) {
+	if rrc && !s.canRRC(q) {
+		rrc = false
+	}
 	q.finSent = true
 	q.finRRC = rrc
 	if rrc && q.ret != nil && q.ret.RetKind == "results" && q.ret.Payload != nil {
@@ -136,7 +155,7 @@ func (s *solo) sendPeerFinish(q *peerQ, rrc bool) {
 }
 
 func (s *solo) sendPeerRelease(ce *connExport, n int) {
-	ce.refs -= n
+	s.peerDropsConnRefs(ce.id, n)
 	id := ce.id
 	s.peerSend(func(m rpccp.Message) error {
 		r, err := m.NewRelease()
@@ -421,7 +440,7 @@ func (s *solo) sendReturn(a *peerA, spec *retSpec, iface bool) {
 		for _, d := range a.call.Payload.Caps {
 			if d.Kind == "senderHosted" || d.Kind == "senderPromise" {
 				if ce := s.cexp[d.ID]; ce != nil {
-					ce.refs--
+					s.peerDropsConnRefs(d.ID, 1)
 					ce.leaked++
 					s.count("param_caps_released_by_return", 1)
 				}
